@@ -22,6 +22,8 @@ type verifCrash struct{}
 type verifFS struct {
 	files    []verifFSFile // directory entries, visible content
 	handles  map[*os.File]string
+	offs     map[*os.File]int  // write offset per open file
+	appendTo map[*os.File]bool // opened with O_APPEND
 	calls    int
 	crashAt  int // the process stops before call number crashAt (0 = never)
 	faults   int
@@ -82,6 +84,58 @@ func verifModel_os_Create(name string) (*os.File, error) {
 	return f, nil
 }
 
+// OpenFile for writing: O_CREATE, O_TRUNC, O_EXCL and O_APPEND as POSIX has
+// them; without O_TRUNC an existing file keeps its content and writes start at
+// offset 0, overwriting.
+func verifModel_os_OpenFile(name string, flag int, perm os.FileMode) (*os.File, error) {
+	fs := verifTheFS
+	fs.sched()
+	if !fs.step("open") {
+		return nil, verifErrIO
+	}
+	i := fs.find(name)
+	if i < 0 {
+		if flag&os.O_CREATE == 0 {
+			return nil, os.ErrNotExist
+		}
+		fs.files = append(fs.files, verifFSFile{name: name})
+	} else {
+		if flag&os.O_CREATE != 0 && flag&os.O_EXCL != 0 {
+			return nil, os.ErrExist
+		}
+		if flag&os.O_TRUNC != 0 {
+			fs.files[i].content = nil
+		}
+	}
+	f := new(os.File)
+	fs.handles[f] = name
+	if flag&os.O_APPEND != 0 {
+		fs.appendTo[f] = true
+	}
+	return f, nil
+}
+
+// put writes p at the handle's offset (or at the end with O_APPEND).
+func (fs *verifFS) put(f *os.File, i int, p []byte) {
+	if i < 0 {
+		return
+	}
+	c := fs.files[i].content
+	off := fs.offs[f]
+	if fs.appendTo[f] {
+		off = len(c)
+	}
+	for k := 0; k < len(p); k++ {
+		if off+k < len(c) {
+			c[off+k] = p[k]
+		} else {
+			c = append(c, p[k])
+		}
+	}
+	fs.files[i].content = c
+	fs.offs[f] = off + len(p)
+}
+
 func verifModel_os_File_Write(f *os.File, p []byte) (int, error) {
 	fs := verifTheFS
 	fs.sched()
@@ -91,9 +145,7 @@ func verifModel_os_File_Write(f *os.File, p []byte) (int, error) {
 	if fs.crashAt == fs.calls {
 		// the process dies inside the write: an arbitrary prefix made it
 		n := verifChoose("partial", len(p)+1)
-		if i >= 0 {
-			fs.files[i].content = append(fs.files[i].content, p[:n]...)
-		}
+		fs.put(f, i, p[:n])
 		panic(verifCrash{})
 	}
 	if fs.faults > 0 {
@@ -103,17 +155,13 @@ func verifModel_os_File_Write(f *os.File, p []byte) (int, error) {
 			if n == len(p) {
 				n = 0
 			}
-			if i >= 0 {
-				fs.files[i].content = append(fs.files[i].content, p[:n]...)
-			}
+			fs.put(f, i, p[:n])
 			fs.log = append(fs.log, "write:fail")
 			return n, verifErrIO
 		}
 	}
 	fs.log = append(fs.log, "write")
-	if i >= 0 {
-		fs.files[i].content = append(fs.files[i].content, p...)
-	}
+	fs.put(f, i, p)
 	return len(p), nil
 }
 
@@ -205,7 +253,7 @@ func verifModel_os_File_Readdirnames(f *os.File, n int) ([]string, error) {
 }
 
 func verifNewFS() *verifFS {
-	verifTheFS = &verifFS{handles: map[*os.File]string{}}
+	verifTheFS = &verifFS{handles: map[*os.File]string{}, offs: map[*os.File]int{}, appendTo: map[*os.File]bool{}}
 	return verifTheFS
 }
 
@@ -225,8 +273,11 @@ func verifH_C19_atomic() {
 	otherVal := verifRecord([]byte{9}, 5)
 	fs.files = append(fs.files, verifFSFile{name: "d/00007", content: append([]byte{}, otherVal...)})
 	// a leftover spool file of an earlier interrupted Save may exist
-	if verifChoose("leftover", 2) == 1 {
+	switch verifChoose("leftover", 3) {
+	case 1:
 		fs.files = append(fs.files, verifFSFile{name: "d/1c003.spool", content: []byte{1, 2, 3}})
+	case 2: // longer than any value saved below
+		fs.files = append(fs.files, verifFSFile{name: "d/1c003.spool", content: []byte{1, 2, 3, 4, 5, 6, 7, 8, 9, 10, 11, 12, 13, 14, 15, 16, 17, 18, 19, 20}})
 	}
 	b1 := verifBytes("v", 1+verifChoose("vlen", 2))
 	trailer := verifBytes("t", 12)
